@@ -46,7 +46,7 @@ def gen_call(rng, case, tags, depth=0, kinds=None):
     return call
 
 
-def gen_case(rng, nthreads, maxcalls, hsm_extras=0.7):
+def gen_case(rng, nthreads, maxcalls, hsm_extras=0.7, p_dyn=0.0):
     case = {'cls': rng.choice(['flat', 'flat', 'hsm']), 'base': copy.deepcopy(rng.choice(BASES)),
             'nmodels': rng.randint(1, 3), 'ignore': rng.random() < 0.4, 'queued': rng.random() < 0.2,
             'extras': {}, 'threads': []}
@@ -56,7 +56,58 @@ def gen_case(rng, nthreads, maxcalls, hsm_extras=0.7):
     tags = [0]
     for _ in range(nthreads):
         case['threads'].append([gen_call(rng, case, tags) for _ in range(rng.randint(1, maxcalls))])
+    case['dyn'] = []
+    if rng.random() < p_dyn:
+        add_dynamic(rng, case, tags)
     return case
+
+
+DYN_PATTERNS = [
+    ['remove', 'ev', 'add', 'ev'],            # event on the removed model (unjudged), re-registration, judged event
+    ['remove', 'ev', 'add+', 'ev'],
+    ['remove', 'add+', 'ev'],
+    ['ev', 'remove', 'ev', 'add', 'ev'],
+    ['add', 'ev'],                            # re-adding a registered model changes nothing
+    ['remove', 'remove', 'add+', 'ev'],       # second remove raises KeyError
+    ['remove', 'ev', 'ev', 'add+', 'ev', 'remove'],
+]
+
+
+def add_dynamic(rng, case, tags):
+    """one or two dynamic models, each owned by one thread: a registration episode is woven into that thread's
+    program (its other calls keep their order)"""
+    owners = list(range(len(case['threads'])))
+    rng.shuffle(owners)
+    for j, t in enumerate(owners[:rng.choice([1, 1, 2])]):
+        case['dyn'].append(copy.deepcopy(rng.choice(EXTRAS)))
+        registered = True
+        episode = []
+        for step in rng.choice(DYN_PATTERNS):
+            tags[0] += 1
+            if step == 'ev':
+                if registered:
+                    call = {'tag': tags[0], 'kind': 'dyn_ev', 'args': [j, rng.choice(locked.EVENTS[case['cls']])], 'script': {}}
+                    if rng.random() < 0.3:
+                        sub = gen_call(rng, case, tags, depth=1)
+                        call['script'][str(rng.randrange(3))] = {'sub': [sub], 'raise': rng.random() < 0.2}
+                else:
+                    call = {'tag': tags[0], 'kind': 'dyn_ev', 'args': [j, rng.choice(['to_A', 'to_B'])], 'script': {},
+                            'unjudged': True}
+            elif step in ('add', 'add+'):
+                ctxs = copy.deepcopy(rng.choice(EXTRAS[2:])) if step == 'add+' else []
+                call = {'tag': tags[0], 'kind': 'dyn_add', 'args': [j, ctxs], 'script': {}}
+                registered = True
+            else:
+                call = {'tag': tags[0], 'kind': 'dyn_remove', 'args': [j], 'script': {}}
+                registered = False
+            episode.append(call)
+        if any(c.get('unjudged') for c in episode):
+            # an unlocked event on a queued machine would share the queue with the judged calls of other threads
+            case['queued'] = False
+        prog = case['threads'][t]
+        slots = sorted(rng.randrange(len(prog) + 1) for _ in episode)
+        for off, (pos, call) in enumerate(zip(slots, episode)):
+            prog.insert(pos + off, call)
 
 
 # ---------------------------------------------------------------------------------------------
@@ -65,7 +116,7 @@ def gen_case(rng, nthreads, maxcalls, hsm_extras=0.7):
 
 def fingerprint(case, events):
     h = hashlib.sha1()
-    h.update(json.dumps([case['cls'], case['base'], case['extras'], case['threads']], sort_keys=True).encode())
+    h.update(json.dumps([case['cls'], case['base'], case['extras'], case['threads'], case.get('dyn')], sort_keys=True).encode())
     h.update(json.dumps(events).encode())
     return h.hexdigest()[:16]
 
@@ -83,7 +134,7 @@ def requests_for(case, run):
     ev = run.events
     n = len(case['threads'])
     progs = locked.thread_progs(ev, n)
-    sched = [t for t, k in run.ctl.steps if k in 'eb']
+    sched = run.model_schedule
     cfg = locked.enc_cfg(case)
     L = locked.machine_lock_id(case)
     reqs = [('c06run', cfg + locked.enc_progs(progs) + [len(sched)] + sched),
@@ -122,7 +173,11 @@ def judge(case, run, answers, serial_cache):
         try:
             tpart, rest = ans.split(' B ')
             nums = [int(x) for x in tpart.split()[1:]]
-            tr = [nums[1 + 4 * i:5 + 4 * i] for i in range(nums[0])]
+            tr, pos = [], 1
+            for _ in range(nums[0]):
+                n = 4 + (2 * nums[pos + 3] if nums[pos] == 5 else 0)
+                tr.append(nums[pos:pos + n])
+                pos += n
             _bpart, rest = rest.split(' D ')
             dpart, rest = rest.split(' C ')
             return tr, [int(x) for x in dpart.split()], int(rest.split(' M ')[0])
@@ -210,7 +265,7 @@ def process(items):
     caches = {}
     for p in pend:
         key = json.dumps([p.case['cls'], p.case['base'], p.case['extras'], p.case['threads'], p.case.get('ignore'),
-                          p.case.get('queued'), p.case['nmodels']], sort_keys=True)
+                          p.case.get('queued'), p.case['nmodels'], p.case.get('dyn')], sort_keys=True)
         cache = caches.setdefault(key, {})
         fs = judge(p.case, p.run, answers[p.req_index:p.req_index + p.nreq], cache)
         ex.evaluations += 1
@@ -222,6 +277,8 @@ def process(items):
                            ('status', p.run.ctl.status),
                            ('machine_context', 'default' if not p.case['base'] else 'user'),
                            ('model_context', 'yes' if any(p.case['extras'].values()) else 'no'),
+                           ('dynamic_models', str(len(p.case.get('dyn') or []))),
+                           ('unjudged_events', str(sum(1 for c, _t in locked.all_calls(p.case) if c.get('unjudged')))),
                            ('blocked_steps', str(min(9, sum(1 for _t, k in p.run.ctl.steps if k == 'b')))),
                            ('raising_calls', str(min(5, sum(1 for o in p.run.outcome.values() if o[0] == 'exc')))),
                            ('reentrant_calls', str(min(5, sum(1 for _c, top in locked.all_calls(p.case) if not top))))):
@@ -264,6 +321,16 @@ CORPUS = [
     {'cls': 'hsm', 'base': [['user', 2], ['lock', 1]], 'nmodels': 1, 'ignore': True, 'queued': False, 'extras': {'0': []},
      'threads': [[_c(1, 'add_states', ['D']), _c(2, 'add_transition', ['go', 'C', 'D'])],
                  [_c(3, 'ev', [0, 'to_C']), _c(4, 'ev', [0, 'go'])], [_c(5, 'set_state', ['B', 0])]]},
+    # remove_model -> event on the removed model (unjudged; the defaultdict read leaves an empty entry) -> add_model
+    # again: the re-registered model must be processed under the machine contexts and its new context
+    {'cls': 'flat', 'base': [], 'nmodels': 1, 'ignore': False, 'queued': False, 'extras': {'0': []}, 'dyn': [[['user', 5]]],
+     'threads': [[_c(1, 'dyn_remove', [0]), dict(_c(2, 'dyn_ev', [0, 'to_B']), unjudged=True),
+                  _c(3, 'dyn_add', [0, [['user', 8]]]), _c(4, 'dyn_ev', [0, 'to_A'])],
+                 [_c(5, 'ev', [0, 'go']), _c(6, 'ev', [0, 'go'])]]},
+    {'cls': 'hsm', 'base': [['lock', 1]], 'nmodels': 1, 'ignore': False, 'queued': False, 'extras': {'0': []}, 'dyn': [[]],
+     'threads': [[_c(1, 'dyn_ev', [0, 'go']), _c(2, 'dyn_remove', [0]), dict(_c(3, 'dyn_ev', [0, 'to_B']), unjudged=True),
+                  _c(4, 'dyn_add', [0, [['lock', 6]]]), _c(5, 'dyn_ev', [0, 'to_A'])],
+                 [_c(6, 'ev', [0, 'go']), _c(7, 'set_state', ['A', 0])]]},
 ]
 
 
@@ -292,7 +359,7 @@ def random_worker(seed, count, lo, hi, maxcalls):
     rng = random.Random(seed)
     items = []
     for _ in range(count):
-        case = gen_case(rng, rng.randint(lo, hi), maxcalls)
+        case = gen_case(rng, rng.randint(lo, hi), maxcalls, p_dyn=0.4)
         items.append((case, _Mk('random', rng.randrange(1 << 30), rng.choice([0.15, 0.4, 0.7, 1.0]))))
     return process(items)
 
@@ -354,7 +421,34 @@ def run_replay(case):
     return r, judge(case, r, answers, {})
 
 
+def retag_dynamic(case):
+    """recompute which dyn_ev calls hit a model that is not registered at that point (program order of the
+    owning thread) after calls were dropped: those are executed silently, with a state-independent event"""
+    reg = {}
+    for th in case['threads']:
+        for call in th:
+            if call['kind'] == 'dyn_add':
+                reg[call['args'][0]] = True
+            elif call['kind'] == 'dyn_remove':
+                reg[call['args'][0]] = False
+            elif call['kind'] == 'dyn_ev':
+                if reg.get(call['args'][0], True):
+                    call.pop('unjudged', None)
+                else:
+                    call['unjudged'] = True
+                    call['script'] = {}
+                    if call['args'][1] not in ('to_A', 'to_B'):
+                        call['args'][1] = 'to_A'
+                    case['queued'] = False
+    return case
+
+
 def shrink_steps(case):
+    for c in _shrink_steps(case):
+        yield retag_dynamic(c)
+
+
+def _shrink_steps(case):
     n = len(case['threads'])
     for t in range(n):
         if n > 1:
@@ -414,10 +508,11 @@ class C06(runner.Check):
     level = 'proof'
     theorems = ('TM.Locked.C06_mutex', 'TM.Locked.C06_no_overlap', 'TM.Locked.C06_serializable',
                 'TM.Locked.C06_reentrant_no_deadlock', 'TM.Locked.C06_contexts_held_in_order',
-                'TM.Locked.C06_released_on_raise')
+                'TM.Locked.C06_registered_contexts', 'TM.Locked.C06_released_on_raise')
     rule = ('thread programs on real LockedMachine / LockedHierarchicalMachine objects (default and user supplied '
             'machine_context lists containing a mutex, model_context lists, 1-3 shared models): 2-4 threads x 1-3 calls '
-            '(events by attribute and by model.trigger, add_transition, add_states, set_state, remove_model, re-entrant '
+            '(events by attribute and by model.trigger, add_transition, add_states, set_state, remove_model, add_model incl. '
+            're-adding a removed model with and without model_context, events on a currently unregistered model as unjudged steps, re-entrant '
             'calls from callbacks two levels deep, raising callbacks), run under a deterministic controller; schedules: '
             'every schedule with at most 2 (thorough: 3) preemptions of 2-thread x <=2-call programs, and random '
             'schedules (switch probability 0.15-1.0) of the larger ones; non-trivial = contention observed (a thread '
@@ -429,7 +524,7 @@ class C06(runner.Check):
                'with-statement / ExitStack unwinding (Python language guarantee)')
     manifest = dict(
         level='proof', design='DESIGN.md 4/C06, design_notes/C06.md',
-        text="Lean 4 theorems over a small-step model of locking.py's protocol (read of IdentManager.current, ExitStack enter loop, PicklableLock, ident writes, engine steps, unwinding), for ALL thread programs, ALL schedules, any number of threads, all context configurations containing a mutex: mutual exclusion and current in {0, holder} (C06_mutex), every trace passes the noOverlap monitor (C06_no_overlap), machine state and engine-step log equal those of a serial execution of the calls (C06_serializable), calls from callbacks acquire nothing and are never blocked (C06_reentrant_no_deadlock), all configured contexts entered in order before the first and exited after the last engine step, also for raising calls (C06_contexts_held_in_order, C06_released_on_raise; flat and hierarchical machines). The real classes are run under a deterministic thread controller; their traces must equal the model's under the same schedule, pass the verified monitors, leave everything released, and their states / return values / per-call callback traces must equal a serial execution. PARTIAL: atomicity of the individual shared-memory actions (GIL, threading.Lock) is assumed, not verified.",
+        text="Lean 4 theorems over a small-step model of locking.py's protocol (read of IdentManager.current, ExitStack enter loop, PicklableLock, ident writes, engine steps, unwinding), for ALL thread programs, ALL schedules, any number of threads, all context configurations containing a mutex: mutual exclusion and current in {0, holder} (C06_mutex), every trace passes the noOverlap monitor (C06_no_overlap), machine state and engine-step log equal those of a serial execution of the calls (C06_serializable), calls from callbacks acquire nothing and are never blocked (C06_reentrant_no_deadlock), all configured contexts entered in order before the first and exited after the last engine step, also for raising calls (C06_contexts_held_in_order, C06_registered_contexts, C06_released_on_raise; flat and hierarchical machines; registration changes over time: add_model / remove_model / the defaultdict read of model_context_map are mirrored, and the monitor keeps its own record of the configured contexts). The real classes are run under a deterministic thread controller; their traces must equal the model's under the same schedule, pass the verified monitors, leave everything released, and their states / return values / per-call callback traces must equal a serial execution. PARTIAL: atomicity of the individual shared-memory actions (GIL, threading.Lock) is assumed, not verified.",
         note="Trusted: Lean kernel, Model/Locked.lean, the thread controller (harness/threads.py) and its replacement of locking.Lock / locking.IdentManager, Python's with/ExitStack unwinding. Engine behaviour inside a call is opaque in the model (arbitrary effect function); it is covered by C01-C05. may_* helpers, dispatch and events on models after remove_model are outside the statement's call list.",
         technique='Lean 4 proof (invariant + induction over schedules, simulation of verified monitors, refinement to a sequential reference) + deterministic thread controller + trace correspondence + verified trace monitors + serial-outcome oracle',
         engines=('thread-controller',))
@@ -492,8 +587,10 @@ class C06(runner.Check):
             'partial: atomicity of single shared-memory actions (attribute reads/writes under the GIL, threading.Lock) is assumed; the harness replaces threading.Lock by a scheduler-aware mutex',
             'machine_context always contains a mutex (library default, or a user supplied non re-entrant lock); with only opaque user contexts no serialization can be expected',
             'contexts are judged on outermost calls; a re-entrant event on ANOTHER model runs under the outer call\'s contexts only (the code skips every acquisition when the thread owns the machine) - recorded, not judged',
-            'remove_model is exercised on models that receive no events. Judged OUTSIDE the statement: an event on a model after machine.remove_model(model) - the model is then no longer a model of the machine and has no configured contexts (the statement speaks of the contexts configured for the event\'s model); on a flat LockedMachine such an event finds an empty model_context_map entry and runs without a context around it (the hierarchical class falls back to the machine contexts) - recorded in design_notes/C06.md, not judged',
-            'add_model is outside the statement\'s call list (re-adding a registered model no longer duplicates its contexts since /repo 80b7897; C10 covers membership)',
+            'NOT judged: an event on a model that is not registered at that moment (after machine.remove_model(model)): the model then has no configured contexts; on a flat LockedMachine such an event finds (and creates) an empty model_context_map entry and runs without a context around it. Such events ARE generated (executed silently: no events, no voluntary yields, they still wait for locks; theorems carry the hypothesis ung = false) because what follows - a re-registered model - is judged: its events must hold the machine contexts and the contexts of the latest add_model',
+            'cases with unjudged events use unqueued machines (an unlocked event on a queued machine would share the queue with the other threads\' judged calls)',
+            'a dynamic (removed / re-added) model is used by one thread only, through top-level calls, so that whether an event hits an unregistered model is determined by program order; racing add_model / remove_model against events on the same model from other threads is not generated',
+            'the update of model_context_map inside add_model / remove_model has no yield point of its own: it is placed in the scheduling step of the call\'s last __enter__ (harness granularity), in the trace and in the model schedule',
             'may_* helpers and dispatch are outside the statement\'s call list',
             'user supplied contexts do not raise in __enter__/__exit__ and user mutexes are non re-entrant',
             'exhaustive enumeration is bounded by the number of preemptions (2 quick / 3 thorough) and capped per program; the theorems are unbounded',
